@@ -187,7 +187,7 @@ class ScatterS0(DaskSeg):
     cls = 'scatter'
     method = 'update'
     start = 0
-    props = ['C20', 'C04']
+    props = ['C20', 'C04', 'C09']
     inflight_post = {'yield:1': 'occ(metadata)'}
 
     def clauses(self):
@@ -202,7 +202,7 @@ class ScatterS1(DaskSeg):
     cls = 'scatter'
     method = 'update'
     start = 1
-    props = ['C20', 'C04']
+    props = ['C20', 'C04', 'C09']
     inflight_pre = 'occ(metadata)'
     inflight_post = {'yield:2': 'occ(metadata)'}
 
@@ -227,7 +227,7 @@ class ScatterS2(DaskSeg):
     cls = 'scatter'
     method = 'update'
     start = 2
-    props = ['C20', 'C04', 'C05']
+    props = ['C20', 'C04', 'C05', 'C09']
     inflight_pre = 'occ(metadata)'
 
     def make_locals(self, I, selfv):
